@@ -331,8 +331,9 @@ DEGENERATE = ('Gradient 1', 'Injection Temperature', 'Production Flow Rate per W
 
 
 def degenerate_input(text):
-    """-> [name, 'uniform', v, v] for the first float parameter of the input written as a plain number: the Monte-Carlo
-    driver then 'samples' exactly the value the file already has (np.random.uniform(v, v) == v)"""
+    """-> [name, 'uniform', w, w] for the first float parameter of the input written as a plain number, with w 3 % below the
+    value in the file: np.random.uniform(w, w) == w, so the Monte-Carlo driver 'samples' exactly w and its embedded run must
+    equal the direct run of the file with the line `name, w` appended (last occurrence governs)"""
     vals = {}
     for line in text.splitlines():
         parts = [x.strip() for x in line.split(',')]
@@ -340,11 +341,16 @@ def degenerate_input(text):
             vals[parts[0]] = parts[1]
     for name in DEGENERATE:
         try:
-            float(vals.get(name, 'x'))
+            v = float(vals.get(name, 'x'))
         except ValueError:
             continue
-        return [name, 'uniform', vals[name], vals[name]]
+        w = repr(round(v * 0.97, 4))
+        return [name, 'uniform', w, w]
     return None
+
+
+def sampled_text(text, degenerate):
+    return text if not degenerate else text.rstrip('\n') + f'\n{degenerate[0]}, {float(degenerate[2])}\n'
 
 
 def mc_row(report_lines, outputs, degenerate):
@@ -383,12 +389,16 @@ def part_client(ctx, ok_inputs, direct, ex):
     meta.append(('aborts-sys-exit', 'client-from-file', None))
     if True:
         res = list(ex.map(_client_job, jobs))
+        cand = [k for k in range(len(ok_inputs)) if direct[k]['ok'] and direct[k]['report']]
+        # reference for the embedded run: the direct pipeline on the file plus the 'sampled' line
+        mcref = dict(zip(cand, ex.map(runner._job, [(k, sampled_text(ok_inputs[k][1], degenerate_input(ok_inputs[k][1])), str(ctx.scratch), False)
+                                                    for k in cand])))
         mcj = []
-        for k, (name, text) in enumerate(ok_inputs):
-            if direct[k]['ok'] and direct[k]['report']:
-                lines = direct[k]['report'].splitlines(keepends=True)
+        for k in cand:
+            if mcref[k]['ok'] and mcref[k]['report']:
+                lines = mcref[k]['report'].splitlines(keepends=True)
                 outs = [o for o in MC_OUTPUTS if mc_value(lines, o) is not None]
-                mcj.append((k, outs, ex.submit(_mc_job, (text, outs, degenerate_input(text), str(ctx.scratch), str(fw.SRC)))))
+                mcj.append((k, outs, ex.submit(_mc_job, (ok_inputs[k][1], outs, degenerate_input(ok_inputs[k][1]), str(ctx.scratch), str(fw.SRC)))))
         mcres = [(k, outs, f.result()) for k, outs, f in mcj]
     for (name, mode, k), job, r in zip(meta, jobs, res):
         rec = {'part': 'client', 'input': name, 'mode': mode, 'text': job[0]}
@@ -407,7 +417,7 @@ def part_client(ctx, ok_inputs, direct, ex):
                         'where GeophiresXResult.json_output_file_path looks', inp=rec,
                         observed={'json_where_client_looks': r['json_where_client_looks']})
     for k, outs, row in mcres:
-        lines = direct[k]['report'].splitlines(keepends=True)
+        lines = mcref[k]['report'].splitlines(keepends=True)
         want = mc_row(lines, outs, degenerate_input(ok_inputs[k][1]))
         ctx.count('monte-carlo-work-package', evaluations=1, nontrivial_keys=[ok_inputs[k][0]])
         if row != want:
@@ -443,7 +453,7 @@ def _direct_job(a):
         os.chdir = real_chdir
         real_chdir(str(root))
     new = sorted({str(p) for p in root.rglob('*') if p.is_file()} - before)
-    return {'error': err, 'new': new, 'reports': {p: Path(p).read_text(encoding='UTF-8', errors='replace') for p in new if p.endswith('.out') or 'noext' in p}}
+    return {'error': err, 'new': new, 'reports': {p: Path(p).read_text(encoding='UTF-8', errors='replace') for p in new if not p.endswith('.json')}}
 
 
 def part_direct_relative(ctx, ok_inputs, direct, ex):
@@ -733,7 +743,7 @@ def replay(ctx, data):
         print('HIP-RA-X part re-run:', [v.key for v in ctx.violations[before:]])
         before = len(ctx.violations)
     elif part == 'mc':
-        ref = runner.run_many(ctx, [inp['text']])[0]
+        ref = runner.run_many(ctx, [sampled_text(inp['text'], degenerate_input(inp['text']))])[0]
         with ProcessPoolExecutor(max_workers=1, initializer=runner._init_worker, initargs=(str(ctx.scratch),)) as ex:
             row = ex.submit(_mc_job, (inp['text'], inp['outputs'], degenerate_input(inp['text']), str(ctx.scratch), str(fw.SRC))).result()
         want = mc_row(ref['report'].splitlines(keepends=True), inp['outputs'], degenerate_input(inp['text']))
